@@ -36,7 +36,7 @@ def build_demo(wt, demo, out):
         # the author's recorded compile command may carry configuration flags (-mssse3, -DADA_DEVELOPMENT_CHECKS=1, sanitizers)
         try:
             meta = json.load(open(os.path.join(os.path.dirname(demo), "meta.json")))
-            toks = str(meta.get("demo_compile", "")).split()
+            toks = [t.rstrip(",;)") for t in str(meta.get("demo_compile", "")).split(" #")[0].split()]
             std = {"-DADA_INCLUDE_URL_PATTERN=1", "-DADA_USE_UNSAFE_STD_REGEX_PROVIDER=1"}
             keep = [t for t in toks if (t.startswith(("-m", "-fsanitize", "-D", "-fno-sanitize")) and t not in std)]
             extra = " ".join(dict.fromkeys(keep))
